@@ -50,7 +50,7 @@ import (
 	"github.com/go-json-experiment/json/internal/jsonwire"
 )
 
-func init() { register("C04L3", runC04L3) }
+// runC04L3 is called as an extra phase of the C04 check (see runC04).
 
 const l3Workers = 16
 const l3Batch = 250
